@@ -494,7 +494,12 @@ def run_deep(acc, api):
                 acc.case(('deep', kind, depth, where), True)
                 acc.count('deep_model_lints')
                 try:
-                    got = lint_script(m)
+                    with core.alarm(60):  # (a generous wall-clock watchdog: firing is a skipped case, counted, never a verdict)
+                        got = lint_script(m)
+                except core.CaseTimeout:
+                    acc.timeouts += 1
+                    acc.count('deep_model_lints_not_finished_in_60s')
+                    continue
                 except Exception as exc:  # pylint: disable=broad-except
                     acc.violation('lint-raised', f'{type(exc).__name__} for a {where} model with {depth} nested {kind} nodes (validate_script and execute_script handle it)', case)
                     continue
